@@ -194,32 +194,62 @@ namespace bxdecay0 {
   bool event_reader::_check_next_event_()
   {
     if (is_trace()) std::cerr << "[trace] bxdecay0::event_reader::_check_next_event_: Entering...\n";
-    if (not _pimpl_->fin) {
-      if (is_trace()) std::cerr << "[trace] bxdecay0::event_reader::_check_next_event_: No input file stream!\n";
-      return false;
-    }
-    if (is_debug()) std::cerr << "[debug] bxdecay0::event_reader::_check_next_event_: Reading ws...\n";
-    *(_pimpl_->fin) >> std::ws;
-    if (_pimpl_->fin->eof()) {
-      if (is_debug()) std::cerr << "[debug] bxdecay0::event_reader::_check_next_event_: fin->EOF\n";
-      _close_current_file_();
-      if (not is_terminated()) {
-        if (is_debug()) std::cerr << "[debug] bxdecay0::event_reader::_check_next_event_: Reader is not terminated\n";
-        _open_new_file_();
-      } else {
-        if (is_debug()) std::cerr << "[debug] bxdecay0::event_reader::_check_next_event_: Reader is terminated\n";
-        if (is_trace()) std::cerr << "[trace] bxdecay0::event_reader::_check_next_event_: Exiting...\n";
+    while (true) {
+      if (not _pimpl_->fin) {
+        if (is_trace()) std::cerr << "[trace] bxdecay0::event_reader::_check_next_event_: No input file stream!\n";
         return false;
       }
-    } else {
+      if (is_debug()) std::cerr << "[debug] bxdecay0::event_reader::_check_next_event_: Reading ws...\n";
+      *(_pimpl_->fin) >> std::ws;
+      if (_pimpl_->fin->eof()) {
+        if (is_debug()) std::cerr << "[debug] bxdecay0::event_reader::_check_next_event_: fin->EOF\n";
+        _close_current_file_();
+        if (is_terminated()) {
+          if (is_debug()) std::cerr << "[debug] bxdecay0::event_reader::_check_next_event_: Reader is terminated\n";
+          return false;
+        }
+        if (is_debug()) std::cerr << "[debug] bxdecay0::event_reader::_check_next_event_: Reader is not terminated\n";
+        _open_new_file_();
+        continue;
+      }
+      if (_pimpl_->parsed_event_counter < _config_.start_event) {
+        // The next record lies before the requested starting index: skip it now, so that
+        // an event is announced only if it can really be loaded.
+        _skip_next_event_();
+        continue;
+      }
       if (is_debug()) std::cerr << "[debug] bxdecay0::event_reader::_check_next_event_: One more event is expected\n";
       if (is_trace()) std::cerr << "[trace] bxdecay0::event_reader::_check_next_event_: Exiting...\n";
       return true;
     }
-    if (is_trace()) std::cerr << "[trace] bxdecay0::event_reader::_check_next_event_: Exiting...\n";
-    return not _terminated_;
   }
-  
+
+  void event_reader::_skip_next_event_()
+  {
+    std::ifstream & fin = *(_pimpl_->fin);
+    int evId = -1;
+    double evTime = 0.0;
+    std::string decayGenName;
+    int nbParticles = 0;
+    fin >> evId >> std::ws >> evTime >> std::ws >> decayGenName >> std::ws >> nbParticles >> std::ws;
+    if (!fin) {
+      throw std::runtime_error("bxdecay0::event_reader::_skip_next_event_: Invalid/corrupted event format!");
+    }
+    for (int iPart = 0; iPart < nbParticles; iPart++) {
+      int partCode;
+      double partTime, px, py, pz;
+      fin >> partCode >> std::ws >> partTime >> std::ws >> px >> std::ws >> py >> std::ws >> pz >> std::ws;
+      if (!fin) {
+        throw std::runtime_error("bxdecay0::event_reader::_skip_next_event_: Invalid/corrupted particle format!");
+      }
+    }
+    _pimpl_->last_event_in_file_index++;
+    _pimpl_->parsed_event_counter++;
+    _pimpl_->end_event_file_index = _pimpl_->current_file_index;
+    _pimpl_->end_event_in_file_index = _pimpl_->last_event_in_file_index;
+    return;
+  }
+
   void event_reader::load_next_event(event & evt_)
   {
     if (is_trace()) std::cerr << "[trace] bxdecay0::event_reader::load_next_event: Entering...\n";
